@@ -10,11 +10,14 @@
 package mc
 
 import (
+	"bytes"
 	"encoding/binary"
 	"encoding/json"
 	"fmt"
 	"hash/fnv"
 	"os"
+	"path/filepath"
+	"runtime"
 	"sort"
 	"strconv"
 	"sync"
@@ -57,6 +60,18 @@ type Run struct {
 	nextIndex    int
 	deadline     time.Time
 	hangs        []Hang
+	guardCalls   int
+	memLimit     uint64 // bytes; 0 = never recycle
+	recycled     bool
+	inMemo       bool
+	journal      map[int]journalEntry
+	journalFile  *os.File
+}
+
+type journalEntry struct {
+	I int             `json:"i"`
+	P bool            `json:"p,omitempty"` // pending marker: execution started
+	D json.RawMessage `json:"d,omitempty"`
 }
 
 // Hang is an execution that did not reach quiescence within the real-time watchdog.
@@ -96,6 +111,12 @@ func New(t *testing.T, prop string) *Run {
 		}
 	}
 	r.OutPath = os.Getenv("VERIF_OUT")
+	r.memLimit = 2500 << 20
+	if v := os.Getenv("VERIF_MEM_MB"); v != "" {
+		if m, err := strconv.Atoi(v); err == nil {
+			r.memLimit = uint64(m) << 20
+		}
+	}
 	if p := os.Getenv("VERIF_REPLAY"); p != "" {
 		b, err := os.ReadFile(p)
 		if err != nil {
@@ -243,6 +264,7 @@ type result struct {
 	Hangs        []Hang         `json:"hangs"`
 	WallS        float64        `json:"wall_s"`
 	Complete     bool           `json:"complete"`
+	Recycled     bool           `json:"recycled,omitempty"` // the process handed over to a fresh one (memory), nothing was skipped
 }
 
 // Finish writes the shard's result file (and the two hash-set files next to it).
@@ -258,8 +280,8 @@ func (r *Run) flush(complete bool) {
 	res := result{Prop: r.Prop, Tier: r.Tier, Shard: r.Shard, NShards: r.NShards,
 		Evaluations: r.evaluations, Transitions: r.transitions, States: len(r.states),
 		Nontrivial: len(r.nontrivial), Samples: r.samples, Caps: r.caps, Notes: r.notes,
-		Inconclusive: r.inconclusive, Exhaustive: r.exhaustive && complete, NextIndex: r.nextIndex, Hangs: r.hangs,
-		WallS: time.Since(r.began).Seconds(), Complete: complete}
+		Inconclusive: r.inconclusive, Exhaustive: r.exhaustive && (complete || r.recycled), NextIndex: r.nextIndex, Hangs: r.hangs,
+		WallS: time.Since(r.began).Seconds(), Complete: complete, Recycled: r.recycled}
 	keys := make([]string, 0, len(r.failures))
 	for k := range r.failures {
 		keys = append(keys, k)
@@ -328,6 +350,7 @@ func (r *Run) DecodeReplay(v any) {
 // partial result is flushed and the process exits with status 3; bin/check restarts the
 // shard after this case.
 func (r *Run) Guard(idx int, limit time.Duration, fingerprint, what string, c any, f func()) {
+	r.maybeRecycle(idx)
 	done := make(chan struct{})
 	go func() {
 		select {
@@ -344,4 +367,95 @@ func (r *Run) Guard(idx int, limit time.Duration, fingerprint, what string, c an
 	}()
 	f()
 	close(done)
+}
+
+// maybeRecycle hands the shard over to a fresh process when this one has grown too large:
+// executions leave goroutines parked in their dead bubbles (socketace leaks some by design),
+// so memory grows with the number of executions. The partial result is flushed with
+// recycled=true, next_index=idx, and the process exits with status 3; bin/check starts the
+// next segment at idx. Nothing is skipped, so exhaustiveness is not affected.
+func (r *Run) maybeRecycle(idx int) {
+	if r.Replay != nil || r.OutPath == "" || r.memLimit == 0 || r.inMemo {
+		return
+	}
+	r.guardCalls++
+	if r.guardCalls%32 != 0 {
+		return
+	}
+	var ms runtime.MemStats
+	runtime.ReadMemStats(&ms)
+	if ms.Sys-ms.HeapReleased < r.memLimit {
+		return
+	}
+	runtime.GC()
+	runtime.ReadMemStats(&ms)
+	if ms.HeapAlloc+ms.StackInuse < r.memLimit/2 {
+		return // garbage, not a leak
+	}
+	r.mu.Lock()
+	r.nextIndex = idx
+	r.recycled = true
+	r.mu.Unlock()
+	r.flush(false)
+	os.Exit(3)
+}
+
+func (r *Run) journalPath() string {
+	if r.OutPath == "" || r.Replay != nil {
+		return ""
+	}
+	return filepath.Join(filepath.Dir(r.OutPath), fmt.Sprintf("shard%d.journal", r.Shard))
+}
+
+// Memo makes an execution restartable for checks whose enumeration depends on earlier
+// outcomes (breadth-first searches): the outcome of execution idx (whatever f stores in
+// *out, JSON) is appended to a per-shard journal; a later segment of the same shard (after
+// a watchdog or memory hand-over) reads it back instead of executing again. replayed is
+// true in that case (the counters were already reported by the earlier segment); hung is
+// true if the earlier segment started the execution and never finished it.
+func (r *Run) Memo(idx int, out any, f func()) (replayed, hung bool) {
+	path := r.journalPath()
+	if path == "" {
+		f()
+		return false, false
+	}
+	if r.journal == nil {
+		r.journal = map[int]journalEntry{}
+		if b, err := os.ReadFile(path); err == nil {
+			dec := json.NewDecoder(bytes.NewReader(b))
+			for {
+				var e journalEntry
+				if err := dec.Decode(&e); err != nil {
+					break
+				}
+				if old, ok := r.journal[e.I]; ok && !old.P && e.P {
+					continue
+				}
+				r.journal[e.I] = e
+			}
+		}
+		r.journalFile, _ = os.OpenFile(path, os.O_APPEND|os.O_CREATE|os.O_WRONLY, 0o644)
+	}
+	if e, ok := r.journal[idx]; ok {
+		if e.P {
+			return true, true
+		}
+		if err := json.Unmarshal(e.D, out); err == nil {
+			return true, false
+		}
+	}
+	w := func(e journalEntry) {
+		if r.journalFile != nil {
+			b, _ := json.Marshal(e)
+			r.journalFile.Write(append(b, '\n'))
+		}
+	}
+	r.maybeRecycle(idx) // before the pending marker: a hand-over is not a hang
+	w(journalEntry{I: idx, P: true})
+	r.inMemo = true
+	f()
+	r.inMemo = false
+	d, _ := json.Marshal(out)
+	w(journalEntry{I: idx, D: d})
+	return false, false
 }
